@@ -714,10 +714,19 @@ def verd1(P, R, L, rule="VERD-1", what=("table", "memtable", "version", "dbget")
                     if wr or any(x in r for x in b.return_blocks()):
                         okall = False
                         det.append("KeyNotFound edge reaches a write of the return place / return before the next file")
-                # any other Err variant is returned
-                for t in tests:
-                    for e in t.err:
-                        pass
+                # any other Err variant ends the search at once (a damaged newer table must not be skipped in favour of an
+                # older value further down)
+                other_ok = True
+                for (sb, tg) in knf:
+                    for (_lab, tg2) in b.edges(sb):
+                        if tg2 == tg or b.is_cleanup(tg2):
+                            continue
+                        if b.term(tg2)["k"] == "unreachable":
+                            continue
+                        if s.bb in b.reachable(tg2):
+                            other_ok = False
+                R.check(rule, VERSION_GET + "|read-error-ends-search", other_ok and bool(knf), s.where(),
+                        "a table read error other than KeyNotFound ends the lookup with that error: no older file is consulted afterwards", "")
             # a verdict from a newer file stops the search
             from ..err import is_drop_glue_switch
             for s in sites:
@@ -4139,6 +4148,7 @@ def bundle_recovery(P, R, L):
     R.once(ts1, P, R, L)
     R.once(grd6, P, R, L)
     R.once(fs1_create_file_modes, P, R, L)
+    R.once(grd22_flush_during_compaction, P, R, L)
     from . import c02
     R.once(c02.grd1_replay, P, R, L)
 
@@ -4358,6 +4368,19 @@ def grd22_flush_during_compaction(P, R, L, rule="GRD-22"):
                         "compact_memtable is told (flag = false) not to place the file below level 0 when called from inside compact_tables",
                         "compact_memtable has %d bool parameter(s)" % len(flag))
     R.floor(rule, "flush sites inside compact_tables", n, 1)
+    # the same holds for the tables written while WALs are replayed: the tables of WALs replayed earlier in the same
+    # recovery are still pending in the edit, not in any version
+    nr = 0
+    for p, b in sorted(P.bodies.items()):
+        if not (p.startswith("db::DB::recover_wal_records") or p.startswith("db::DB::recover_unrecorded_logs")):
+            continue
+        for c in b.calls():
+            if not b.is_cleanup(c.bb) and c.name == CONVERT:
+                nr += 1
+                R.analysed(b)
+                R.check(rule, p + "|recovery-flush-without-base-version", only_none(b, c.args[3]), c.where(),
+                        "a table written during WAL replay passes no base version (level 0)", "")
+    R.floor(rule, "flush sites in WAL replay", nr, 1)
     # inside compact_memtable the base version reaches convert_memtable_to_file only on the flag's true edge
     conv = [c for c in cm.calls() if not cm.is_cleanup(c.bb) and c.name == CONVERT]
     if len(flag) == 1 and conv:
